@@ -199,6 +199,8 @@ const (
 	ErrEndifWithoutMatchingIf Error = "$endif without matching $if"
 	// ErrUnknownModifier is the unknown modifier error.
 	ErrUnknownModifier Error = "unknown modifier"
+	// ErrIncludeDepth is the $include nested too deeply error.
+	ErrIncludeDepth Error = "$include nested too deeply"
 )
 
 // Error satisfies the error interface.
